@@ -19,4 +19,6 @@ CustomConfigs ==
       \* motif index differs from the index of its first orbit column, and the sizes at the two indexes differ
       [sizes |-> <<1, 2, 3>>, motifs |-> <<Mo(<<1, 2>>, <<<<1, 2>>, <<1, 3>>>>, FALSE), Mo(<<3>>, Tri, FALSE)>>, custom |-> TRUE] }
 AllConfigs == FastConfigs \cup CustomConfigs
+LeakAll == "all"
+LeakColumns == "columns"
 =============================================================================
